@@ -315,9 +315,6 @@ Section AdfEquiv.
   Definition def_of_pair (p : fpset V * list node) : adfdef V :=
     mkdef (fp_ps (fst p)) (fp_name (fst p)) (fp_ctx (fst p)) (snd p).
 
-  (* Python's None for "no tree compiled" and an exception are one value of the model *)
-  Definition flat {A} (r : option (option A)) : option A := match r with Some (Some k) => Some k | _ => None end.
-
   Lemma flat_bind_snd {A B} (m : option (A * option B)) :
     flat (bind m (fun '(_, f) => ret f)) = match m with Some (_, f) => f | None => None end.
   Proof. destruct m as [[a [f|]]|]; reflexivity. Qed.
@@ -351,7 +348,6 @@ Section AdfEquiv.
   Qed.
 End AdfEquiv.
 Arguments def_of_pair {V} p.
-Arguments flat {A} r.
 
 Ltac adf_script cval :=
   cbv zeta;
@@ -378,10 +374,95 @@ Proof.
 Qed.
 
 (* compileADF on the list of definitions the model takes *)
-Definition fp_of {V} (d : adfdef V) : fpset V := mkfp (d_ps d) (d_name d) (d_ctx d).
 Lemma gen_compileADF_defs {V} (cval : cst -> option V) defs :
   flat (gen_compileADF cval (map d_tree defs) (map fp_of defs)) = compile_adf cval defs.
 Proof.
   rewrite gen_compileADF_eq. unfold compile_adf. f_equal. f_equal.
   induction defs as [|[p n c t] defs IH]; [reflexivity|]. cbn. now rewrite IH.
 Qed.
+
+(* ---------------------------------------------------------------- all of them *)
+Lemma source_is_model :
+  (forall s args, gen_Primitive_format s args = seq_format s args) /\
+  (forall f v, gen_Terminal_format f v = apply_conv f v) /\
+  (forall ps n args, arity_matches (List.length args) n = true -> gen_format ps n args = Some (fmt ps n args)) /\
+  (forall ps t, gen_str ps t = Some (str_tree ps t)) /\
+  (forall sub s ps, gen_from_string sub s ps = read sub (ps_mapping ps) s) /\
+  (forall t ps, gen_compile_code t ps = Some (code_of ps t)) /\
+  (forall ps kargs, gen_renameArguments ps kargs = rename kargs ps) /\
+  (forall V (cval : cst -> option V) defs,
+     flat (gen_compileADF cval (map d_tree defs) (map fp_of defs)) = compile_adf cval defs).
+Proof.
+  repeat split; intros.
+  - apply gen_Primitive_format_eq.
+  - apply gen_Terminal_format_eq.
+  - now apply gen_format_eq.
+  - apply gen_str_eq.
+  - apply gen_from_string_eq.
+  - apply gen_compile_code_eq.
+  - apply gen_renameArguments_eq.
+  - apply gen_compileADF_defs.
+Qed.
+
+(* ---------------------------------------------------------------- the C12 theorems on the regenerated definitions *)
+Lemma gen_str_is_pp ps t tr : parse t = Some tr -> gen_str ps t = Some (pp ps tr).
+Proof. intro H. rewrite gen_str_eq. f_equal. now apply str_is_pp. Qed.
+
+Lemma gen_read_print sub ps t tr :
+  (forall a, sub a a = true) -> (forall a b c, sub a b = true -> sub b c = true -> sub a c = true) ->
+  parse t = Some tr -> all_nodes (node_ok ps) tr -> all_nodes (resolvable sub ps) tr -> typed sub tr ->
+  exists s t',
+    gen_str ps t = Some s /\
+    gen_from_string sub s ps = Some t' /\
+    gen_str ps t' = Some s /\
+    List.length t' = List.length t /\
+    map node_arity t' = map node_arity t /\
+    (forall V (cval : cst -> option V) ctx actuals,
+        eval_prefix cval ctx actuals t' = eval_prefix cval ctx actuals t) /\
+    gen_compile_code t' ps = gen_compile_code t ps.
+Proof.
+  intros R T P N Rs Ty. destruct (read_print sub ps t tr R T P N Rs Ty) as (t' & H1 & H2 & H3 & H4 & H5 & H6).
+  exists (str_tree ps t), t'. rewrite !gen_str_eq, gen_from_string_eq, !gen_compile_code_eq.
+  repeat split; try assumption; try congruence.
+  unfold code_of. now rewrite H2.
+Qed.
+
+Lemma gen_code_is_expr ps t tr : parse t = Some tr -> all_nodes (node_ok ps) tr ->
+  exists s, gen_str ps t = Some s /\ parse_expr s = Some (expr_of ps tr) /\
+    gen_compile_code t ps =
+    Some (match ps_arguments ps with
+          | [] => s
+          | params => String.append "lambda " (String.append (String.concat "," params) (String.append ": " s))
+          end).
+Proof.
+  intros P N. exists (str_tree ps t). rewrite gen_str_eq, gen_compile_code_eq.
+  split; [reflexivity|]. split; [now apply code_is_expr|reflexivity].
+Qed.
+
+Lemma gen_compile_adf_sem {V} (cval : cst -> option V) defs actuals :
+  Forall (def_ok) defs -> zero_ok cval (tl defs) ->
+  run_compiled cval (flat (gen_compileADF cval (map d_tree defs) (map fp_of defs))) actuals = adf_sem cval defs actuals.
+Proof. intros. rewrite gen_compileADF_defs. now apply compile_adf_sem. Qed.
+
+Lemma gen_rename_fresh kargs ps0 :
+  NoDup (ps_arguments ps0) -> NoDup (map snd kargs) ->
+  (forall n, In n (map snd kargs) -> ~ In n (ps_arguments ps0)) ->
+  ps_argvalue ps0 = ps_arguments ps0 -> arg_entries ps0 ->
+  exists ps', gen_renameArguments ps0 kargs = Some ps' /\
+    ps_arguments ps' = map (new_name kargs) (ps_arguments ps0) /\
+    ps_argvalue ps' = ps_arguments ps' /\
+    NoDup (ps_arguments ps') /\
+    arg_entries ps' /\
+    (forall k, ~ In k (ps_arguments ps0) -> ~ In k (map snd kargs) ->
+               dget k (ps_mapping ps') = dget k (ps_mapping ps0)).
+Proof. rewrite gen_renameArguments_eq. apply rename_fresh. Qed.
+
+(* a tree printed by the regenerated __str__ is tokenised into its nodes' tokens *)
+Lemma gen_tokenize_str ps t tr s : parse t = Some tr -> all_nodes (node_ok ps) tr ->
+  gen_str ps t = Some s -> tokenize s = map (node_tok ps) t.
+Proof. intros P N. rewrite gen_str_eq. intros [= <-]. now apply (tokenize_str ps t tr). Qed.
+
+Lemma gen_compile_of_code {V} (cval : cst -> option V) ps ps' ctx t t' :
+  gen_compile_code t ps = gen_compile_code t' ps' -> ps_arguments ps = ps_arguments ps' ->
+  compile cval ps ctx t = compile cval ps' ctx t'.
+Proof. rewrite !gen_compile_code_eq. intros [= H]. now apply compile_of_code. Qed.
